@@ -269,11 +269,14 @@ func (d *Decoder) LoadParityData() error {
 	return nil
 }
 
-func (d *Decoder) buildShards() [][]byte {
+func (d *Decoder) buildShards() ([][]byte, error) {
 	shards := make([][]byte, len(d.fileData)+len(d.parityData))
 	for i, data := range d.fileData {
 		if data == nil {
 			continue
+		}
+		if len(data) > d.shardByteCount {
+			return nil, errors.New("data file bigger than parity data")
 		}
 		padding := make([]byte, d.shardByteCount-len(data))
 		shards[i] = append(data, padding...)
@@ -286,7 +289,7 @@ func (d *Decoder) buildShards() [][]byte {
 		shards[len(d.fileData)+i] = data
 	}
 
-	return shards
+	return shards, nil
 }
 
 func (d *Decoder) newReedSolomon() (reedsolomon.Encoder, error) {
@@ -378,7 +381,10 @@ func (d *Decoder) VerifyAllData() (ok bool, err error) {
 		return false, err
 	}
 
-	shards := d.buildShards()
+	shards, err := d.buildShards()
+	if err != nil {
+		return false, err
+	}
 
 	return rs.Verify(shards)
 }
@@ -390,12 +396,26 @@ func (d *Decoder) VerifyAllData() (ok bool, err error) {
 // error is returned. If checkParity is true, extra checking is done
 // of the reconstructed parity data.
 func (d *Decoder) Repair(checkParity bool) ([]string, error) {
+	if d.shardByteCount == 0 {
+		// No parity volume was found, so nothing can be
+		// reconstructed.
+		for _, data := range d.fileData {
+			if data == nil {
+				return nil, reedsolomon.ErrTooFewShards
+			}
+		}
+		return nil, nil
+	}
+
 	rs, err := d.newReedSolomon()
 	if err != nil {
 		return nil, err
 	}
 
-	shards := d.buildShards()
+	shards, err := d.buildShards()
+	if err != nil {
+		return nil, err
+	}
 
 	err = rs.Reconstruct(shards)
 	if err != nil {
@@ -421,6 +441,9 @@ func (d *Decoder) Repair(checkParity bool) ([]string, error) {
 		}
 
 		entry := d.fileDataEntries[i]
+		if entry.header.FileBytes > uint64(len(shards[i])) {
+			return repairedPaths, errors.New("file byte count bigger than parity data")
+		}
 		data = shards[i][:entry.header.FileBytes]
 		if sixteenKHash(data) != entry.header.SixteenKHash {
 			return repairedPaths, errors.New("hash mismatch (16k) in reconstructed data")
